@@ -51,6 +51,7 @@ class Lemma:
         self.triggers = kw.get('triggers', None)
         self.props = kw.get('props', [])
         self.induct = kw.get('induct')
+        self.uses = kw.get('uses', [])       # earlier lemmas assumed in this lemma's proof
         self.sample = kw.get('sample', {})   # by='axiom': var -> (lo, hi) sampling window (NOT a hypothesis)
         self.cases = kw.get('cases')      # var -> iterable of ints: the lemma is proved once per combination
         self.rounds = kw.get('rounds', 2)
